@@ -194,17 +194,19 @@ def _validate(ctx, state, level, trace_path, what):
     if not bad:
         ctx.inconclusive("C17 %s: TLC rejected the log (%s) but the listing pass found no offending event:\n%s" % (
             level, tr.inv, tr2.out[-2000:]))
-    # one violation per offending case (the first offending event of the case)
+    # one violation per offending case and signature (the first such event of the case): a known finding early in a case
+    # must not hide a different violation later in the same case
     starts = [i for i, e in enumerate(ev) if e["ev"] == "reset"]
-    seen_cases, sigs = set(), []
+    seen, seen_cases, sigs = set(), set(), []
     for clause, idx in sorted(bad, key=lambda x: x[1]):
         idx = max(0, min(idx, len(ev) - 1))
         case = max([st for st in starts if st <= idx] or [0])
-        if case in seen_cases:
-            continue
-        seen_cases.add(case)
         seg = ev[case:idx + 1]
         sig = _signature(level, clause, seg)
+        if (case, jdump(sig)) in seen:
+            continue
+        seen.add((case, jdump(sig)))
+        seen_cases.add(case)
         sigs.append(sig)
         ctx.violation(sig, "%s: recorded history of the real code is not a behaviour of the contract (clause %s, event %s, open=%d)" % (
             what, clause, jdump(_strip(ev[idx])), _open_at(seg)), [_strip(e) for e in seg])
@@ -498,9 +500,9 @@ def _server(ctx, state):
     if len(bad) > nhard:
         ctx.log("server level: %d offending events depend on the settle-time assumption; repeating with 5x settle time" % (len(bad) - nhard))
         tp2 = once(1500, "b")
-        _validate(ctx, state, "server-settled", tp2, "HTTPServer runtime, cap change assumed applied 1.5 s after the reload was consumed")
-    else:
-        ctx.traces(sum(1 for e in ev if e["ev"] == "reset"))
-        ctx.evals(sum(1 for e in ev if e["ev"] == "reset"))
+        _n, _e, sigs2 = _validate(ctx, state, "server-settled", tp2, "HTTPServer runtime, cap change assumed applied 1.5 s after the reload was consumed")
+        if not sigs2:
+            ctx.notes.append("server level: %d offending event(s) under the 300 ms settle assumption did not reproduce with 1.5 s: not reported" % (len(bad) - nhard))
+    # (the same executions validated under the stronger reading: not counted twice)
     ctx.assumptions.append("server level: a cap change is taken as applied 300 ms (1.5 s on re-check) after the runtime consumed the reload event; "
                            "offending events that depend on this are reported only if they reproduce with the longer time")
